@@ -13,8 +13,8 @@ CLAIMED = {
     "C05": ("proof", LIB + "flat group size_bytes equals HDR + numInGroup*blockLength as a mathematical product (no wrap) for every dimension type pair; nested size_bytes closed by a loop contract; data/array size_bytes exact.", "DESIGN.md 6 C05", ""),
     "C10": ("proof", "Two obligations per function that checks or dereferences: (S) handler=assume(false): CBMC pointer/bounds checks pass for any buffer length; (N) documented preconditions + in-bounds => handler unreachable.", "DESIGN.md 6 C10",
             "Known finding: uint64 wire blockLength >= 2^63 wraps the pointer (listed in known_findings.json)."),
-    "C11": ("proof", "Every non-mutating function under contract carries an empty assigns clause (or only the cursor position) enforced by DFCC frame instrumentation; conversions towards const keep the same range.", "DESIGN.md 6 C11",
-            "The compile-time half (mutators do not exist for const byte types) is not a function contract and is NOT decided by this check."),
+    "C11": ("proof", "Every non-mutating function under contract carries an empty assigns clause (or only the cursor position) enforced by DFCC frame instrumentation; conversions towards const keep the same range. Compile-time half, as far as overload resolution shows it: per corpus level a root of booleans computed by clang (expression-validity detection) says that no setter is callable on a const-byte view or with a const cursor (plain/init/dont_move/init_dont_move), with positive controls; views and cursors convert only towards const.",
+            "DESIGN.md 6 C11", "Rejections implemented as hard errors inside a function body (not enable_if) would not be visible to the detection idiom; element/pointer constness of array references and group/data mutators are not covered."),
     "C12": ("proof", "Contracts + law lemmas on random_access_iterator, forward_iterator, flat/nested group bases for dimension type pairs (3 quick, 16 thorough): entry i at data start + i*wire blockLength, begin()+size()==end(), it[n]==*(it+n), (it+n)-n==it, orderings, nested ++ moves by entry size, resize/clear touch only numInGroup.",
             "DESIGN.md 6 C12", "Iterator arithmetic proved for |n|, blockLength <= 2^20 (product must not overflow int64); n == difference_type minimum excluded for subtracting forms."),
     "C13": ("proof", "One-step refinement of std::vector per dynamic_array_ref operation: structure clauses (length prefix, returned iterator, reporting, frame) unbounded with memmove/memset replaced by frame contracts; content clauses bounded (buffer <= 8 bytes, ghost index).",
